@@ -159,7 +159,7 @@ def check_name_injective(ctx, repo):
                 ctx.ok(c, st, injective_by="name is order-sensitive in every operand key tuple")
 
 
-@rule("C09.name-injective", props=["C09", "C13"], min_instances=3, mutants=[
+@rule("C09.name-injective", props=["C09", "C13", "C11", "C12"], min_instances=3, mutants=[
     ("drop the fresh suffix (unary)", ("operator_dict", "            keys_out, func = do_codegen(self.codegen, mv)\n            func.__name__ = f'{func.__name__}_{id(func)}'\n",
                                        "            keys_out, func = do_codegen(self.codegen, mv)\n")),
 ])
@@ -189,7 +189,7 @@ def _fx_name(ctx):
 
 
 # --------------------------------------------------------------------------- race-free fresh token (one clause of the thread statement)
-@rule("C09.token-atomic", props=["C09"], min_instances=3, mutants=[
+@rule("C09.token-atomic", props=["C09", "C11", "C12", "C13"], min_instances=3, mutants=[
     ("token from the size of the shared name space (check-then-act)", ("operator_dict", "            keys_out, func = do_codegen(self.codegen, mv)\n            func.__name__ = f'{func.__name__}_{id(func)}'", "            keys_out, func = do_codegen(self.codegen, mv)\n            func.__name__ = f'{func.__name__}_{len(self.algebra.numspace)}'")),
 ])
 def token_atomic(ctx):
